@@ -3,7 +3,8 @@
 From Coq Require Import String.
 From Coq Require Import List Ascii ZArith Bool Lia.
 From CGV Require Import Base.PyBase Base.PyVal Base.NxGraph Resolve.Bonding Resolve.GraphOps Resolve.Pipeline
-     Resolve.MapDefs Resolve.Witness Resolve.MapProofs Resolve.CopyProofs Resolve.PipelineFull Resolve.FragidProofs.
+     Resolve.MapDefs Resolve.Witness Resolve.MapProofs Resolve.CopyProofs Resolve.PipelineFull Resolve.FragidProofs Resolve.EdgeCopy.
+From CGV Require Import Compose.CutModel Compose.ComposeFlat Compose.CutSpecCheck Compose.LevelsExamples.
 Import ListNotations.
 Open Scope Z_scope.
 
@@ -95,6 +96,27 @@ Theorem C02_step_fragid_real : forall legacy aa fd prev car fo, wf_dict fd -> wf
   resolve_step_full legacy aa fd prev car = Ok fo -> fid_inv (flat_map (real_of fd) (fo_meta fo)) (fo_mol fo).
 Proof. exact step_fid_inv. Qed.
 
+(** "same internal bonds and bond orders" for the graphs a COARSE step RETURNS, in the domain of well-formed cuts of a molecule
+    (Compose/CutModel: every coarse node has a fragment, descriptor labels unique, legacy convention) - a corollary of the
+    Compose component's skeleton theorem: the step returns, and every template edge has its copy between the copies of its two
+    atoms with the template's order; both atoms record the coarse key of their part *)
+Theorem C02_step_edges_copy : forall E fd prev car, wf_cut E -> templates_ok E fd -> is_base E (next_meta prev) ->
+  exists fo, resolve_step_full true false fd prev car = Ok fo /\ fo_meta fo = next_meta prev /\
+    forall p name xs T, nth_error (c_parts E) p = Some (name, xs) -> fd_get name fd = Some T ->
+    forall i j d, In (i, j, d) (edges_data T) ->
+      exists x y, nth_error xs (Z.to_nat i) = Some x /\ nth_error xs (Z.to_nat j) = Some y /\
+        has_edge (fo_mol fo) (phi E x) (phi E y) = true /\
+        edge_get (fo_mol fo) (phi E x) (phi E y) (S "order") = aget (S "order") d /\
+        node_get (fo_mol fo) (phi E x) (S "fragid") = Some (VList [VInt (Z.of_nat p)]) /\
+        node_get (fo_mol fo) (phi E y) (S "fragid") = Some (VList [VInt (Z.of_nat p)]).
+Proof. exact step_edges_copy. Qed.
+(** non-vacuity: Compose's two-part example cut satisfies the hypotheses *)
+Example C02_step_edges_copy_nonvacuous :
+  wf_cut exC'' /\ templates_ok exC'' (fragdict_of exC'') /\ is_base exC'' (next_meta (base_of exC'')).
+Proof.
+  destruct exC''_hypotheses as (A & B & C). split; [now apply wf_cutb_sound|]. split; [now apply templates_okb_sound|now apply is_baseb_sound].
+Qed.
+
 (** non-vacuity: the templates of the witness dictionary are well formed *)
 Example C02_wf_nonvacuous : exists tA tB, fd_get (S "A") fd_AB = Some tA /\ fd_get (S "B") fd_AB = Some tB /\ wf_template tA /\ wf_template tB.
 Proof.
@@ -110,6 +132,7 @@ Print Assumptions C02_disc_step_copy.
 Print Assumptions C02_fragid_is_coarse_key.
 Print Assumptions C02_step_frag_exact.
 Print Assumptions C02_step_fragid_real.
+Print Assumptions C02_step_edges_copy.
 Print Assumptions C02_frag_exact.
 Print Assumptions C02_frag_cover.
 Print Assumptions C02_fragid_singleton.
